@@ -99,7 +99,7 @@ func parseTree(out []byte, root string) (*driver.Outcome, error) {
 					if d.Category != "" {
 						fmt.Fprintf(&rest, "category=%s;", d.Category)
 					}
-					o.Diags[path] = append(o.Diags[path], driver.Diag{Analyzer: an, File: strings.TrimPrefix(m[1], root), Line: line, Col: col, Msg: d.Message, Rest: rest.String()})
+					o.Diags[path] = append(o.Diags[path], driver.Diag{Analyzer: an, File: strings.TrimPrefix(m[1], root), Line: line, Col: col, Msg: strings.ReplaceAll(d.Message, root, ""), Rest: rest.String()})
 				}
 			}
 		}
